@@ -170,3 +170,30 @@ Qed.
 Example update2_versions_related :
   Forall2 same_but_ver [r_dep "v1beta2" ex_o; r_wid "w1" w_o] [r_dep "v1" ex_o; r_wid "w1" w_o].
 Proof. repeat constructor. Qed.
+
+(* ---- --recreate-pods (round 5) ---- *)
+Definition pod (labels : list (string * tree)) : tree :=
+  TM [("metadata", TM [("labels", TM labels)]); ("spec", TM [])].
+Definition r_svc (n : string) (o : tree) : res2 := mkRes2 "default" "" "Service" n "v1" false o.
+Definition svc_sel : tree := TM [("metadata", TM []); ("spec", TM [("selector", TM [("app", js "web"); ("tier", js "db")])])].
+Definition svc_nosel : tree := TM [("metadata", TM []); ("spec", TM [("type", js "ExternalName")])].
+Definition dep_sel : tree := TM [("metadata", TM []); ("spec", TM [("selector", TM [("matchLabels", TM [("app", js "web")])])])].
+
+Definition rc_store : store2 :=
+  [("default/apps/Deployment/web", dep_sel); ("default//Service/web", svc_sel); ("default//Service/ext", svc_nosel);
+   ("default//Pod/web-1", pod [("app", js "web")]); ("default//Pod/web-db", pod [("app", js "web"); ("tier", js "db")]);
+   ("default//Pod/stranger", pod [("app", js "other")]); ("default//Pod/bare", pod []);
+   ("other//Pod/web-elsewhere", pod [("app", js "web")])].
+
+(* the Deployment's and the Service's pods go; the selector-less Service selects nothing; the stranger, the
+   unlabelled pod and the pod of another namespace stay *)
+Example recreate_example :
+  NoDup (akeys rc_store) /\
+  map fst (fst (k2_recreate rc_store [r_dep "v1" dep_sel; r_svc "web" svc_sel; r_svc "ext" svc_nosel])) =
+    ["default/apps/Deployment/web"; "default//Service/web"; "default//Service/ext";
+     "default//Pod/stranger"; "default//Pod/bare"; "other//Pod/web-elsewhere"] /\
+  selector_of (r_svc "ext" svc_nosel) svc_nosel = None.
+Proof.
+  split; [|vm_compute; auto].
+  vm_compute. repeat constructor; simpl; intuition discriminate.
+Qed.
